@@ -216,13 +216,15 @@ func realtimePart(r *vrun.Run) {
 				map[string]any{"call_ms": o.c.Sub(w.Start).Milliseconds(), "ret_ms": o.t.Sub(w.Start).Milliseconds(), "latency_reference_max_overshoot_ms": maxOver(o.c, o.t).Milliseconds()})
 			continue
 		}
-		// the heartbeat really was more than two periods late
+		// The heartbeat really was more than two periods late. In real time this is an observation, never a verdict: the
+		// references (a sleeping goroutine, a heartbeat's worth of I/O next to the lock) bound neither what the kernel does to
+		// the heartbeat's own truncating open under an fsync storm nor what the monitor's decorator adds to it (it re-stamps
+		// and records every operation of the holder). That a live holder's heartbeat is never late BY THE LIBRARY'S DOING is
+		// decided on the virtual clock, where the environment's latency is zero.
 		if quiet {
-			r.Violation(vrun.Sig{"clause": "heartbeat-liveness", "effect": "heartbeat-late-although-scheduler-responsive", "mode": "real-time-under-load"},
-				fmt.Sprintf("the live holder's heartbeat was more than 2 periods late at +%dms although a goroutine sleeping one period overshot by less than half a period and a heartbeat-sized write next to the lock took less than half a period", o.t.Sub(w.Start).Milliseconds()),
-				map[string]any{"latency_reference_max_overshoot_ms": maxOver(o.c, o.t).Milliseconds()})
+			r.Obs("realtime_heartbeats_late_while_both_latency_references_were_quiet(observation_only)", 1)
 		} else {
-			r.Inconclusive("real-time: heartbeat late while a latency reference (scheduler or filesystem) was above half a period (load)")
+			r.Obs("realtime_heartbeats_late_while_a_latency_reference_was_above_half_a_period(observation_only)", 1)
 		}
 	}
 	lmu.Lock()
